@@ -61,6 +61,7 @@ Definition c10_network_statement (K : cring) (network_value : dist K -> nat -> l
 (* the four candidates f, f.X, f.X.Z, f.Z exhaust the errors with the syndrome of f: for a stabilizer code
    with one logical qubit (n - 1 independent commuting generators, logicals lx, lz commuting with them and
    anticommuting with each other), every e with the syndrome of f lies in exactly one of the four cosets *)
+(* PROVED for arbitrary codes: see c10_four_cosets_all / c10_normalizer_counting_all at the end of this file *)
 Definition c10_four_cosets_statement : Prop :=
   forall n (gens : list bsf) (lx lz f e : bsf),
     Forall (fun g => length g = n + n) (lx :: lz :: f :: e :: gens) -> indep (n + n) gens -> S (length gens) = n ->
@@ -185,3 +186,54 @@ Print Assumptions c10_toric_sixteen_cosets.
 Print Assumptions c10_toric_sixteen_prob.
 Print Assumptions c10_rottoric_sixteen_cosets.
 Print Assumptions c10_rottoric_sixteen_prob.
+
+(* ---- re-exported by tools/reexport.py: statements copied from `Check`, closed by `exact` ---- *)
+From QV Require Import Tensor.PlanarNetZ.
+Theorem c10_planar_sitesZ_shape : forall (a : distZ) (rows cols : Z) (f : bsf), length (planar_sitesZ a rows cols f) = tn_rows rows /\ Forall (fun row : list sitedata => length row = tn_cols cols) (planar_sitesZ a rows cols f).
+Proof. exact planar_sitesZ_shape. Qed.
+Theorem c10_planar_sitesZ_nth : forall (a : distZ) (rows cols : Z) (f : bsf) (r c : nat), (r < tn_rows rows)%nat -> (c < tn_cols cols)%nat -> nth c (nth r (planar_sitesZ a rows cols f) []) None = site_data (Some (node Zring a (tn_rows rows) (tn_cols cols) (fxb rows cols f) (fzb rows cols f) r c)).
+Proof. exact planar_sitesZ_nth. Qed.
+Theorem c10_planar_numbersZ : forall (a : distZ) (rows cols : Z) (f : bsf), 2 <= rows -> 2 <= cols -> length f = (Planar.planar_n rows cols + Planar.planar_n rows cols)%nat -> planar_valueZ a rows cols f = planar_cosetZ a rows cols f /\ planar_sweepZ a rows cols f None = Some (planar_cosetZ a rows cols f) /\ planar_sweepZ a rows cols f (Some 1) = Some (planar_cosetZ a rows cols f) /\ planar_sweepZ a rows cols f (Some (-1)) = Some (planar_cosetZ a rows cols f) /\ planar_tsweepZ a rows cols f = Some (planar_cosetZ a rows cols f) /\ (forall c : nat, (0 < c < tn_cols cols)%nat -> planar_splitZ a rows cols f (Z.of_nat c) = Some (planar_cosetZ a rows cols f)) /\ (forall r : nat, (0 < r < tn_rows rows)%nat -> planar_tsplitZ a rows cols f (Z.of_nat r) = Some (planar_cosetZ a rows cols f)).
+Proof. exact planar_numbersZ. Qed.
+Print Assumptions c10_planar_sitesZ_shape.
+Print Assumptions c10_planar_sitesZ_nth.
+Print Assumptions c10_planar_numbersZ.
+
+(* ---- re-exported by tools/reexport.py: statements copied from `Check`, closed by `exact` ---- *)
+From QV Require Import Tensor.NormalizerCounting.
+Theorem c10_normalizer_counting_all : normalizer_counting_statement.
+Proof. exact normalizer_counting_all. Qed.
+Theorem c10_four_cosets_all : four_cosets_statement.
+Proof. exact four_cosets_all. Qed.
+Theorem c10_centralizer_all : forall (n : nat) (gens : list bsf) (lx lz : bsf), rowlen (n + n) (lx :: lz :: gens) -> independent (n + n) gens -> S (length gens) = n -> (forall g h : bsf, In g gens -> In h gens -> bsp g h = false) -> (forall g : bsf, In g gens -> bsp lx g = false /\ bsp lz g = false) -> bsp lx lz = true -> forall t : bsf, length t = (n + n)%nat -> (forall g : bsf, In g gens -> bsp t g = false) -> bsp t lx = false -> bsp t lz = false -> in_spanP (n + n) gens t.
+Proof. exact centralizer_all. Qed.
+Theorem c10_bsp_nondegenerate : forall t : bsf, Nat.even (length t) = true -> t <> zeros (length t) -> exists w : bsf, length w = length t /\ bsp w t = true.
+Proof. exact bsp_nondegenerate. Qed.
+Theorem c10_syndrome_onto : forall N : nat, Nat.even N = true -> forall G : list bsf, rowlen N G -> independent N G -> forall s : bsf, length s = length G -> exists u : bsf, length u = N /\ syndrome_of G u = s.
+Proof. exact syndrome_onto. Qed.
+Theorem c10_destabilizers_exist : forall N : nat, Nat.even N = true -> forall G : list bsf, rowlen N G -> independent N G -> exists D : list bsf, rowlen N D /\ length D = length G /\ (forall i j : nat, (i < length G)%nat -> (j < length G)%nat -> bsp (nth i D []) (nth j G []) = (i =? j)%nat).
+Proof. exact destabilizers_exist. Qed.
+Theorem c10_exchange_lemma : forall (N : nat) (B L : list bsf), rowlen N B -> independent N B -> (forall v : bsf, in_spanP N B v -> In v L) -> (length L <= 2 ^ length B)%nat -> forall t : bsf, In t L -> in_spanP N B t.
+Proof. exact exchange_lemma. Qed.
+Theorem c10_perp_span : forall N : nat, Nat.even N = true -> forall G F : list bsf, rowlen N G -> rowlen N F -> independent N G -> independent N F -> (length F + length G)%nat = N -> (forall f g : bsf, In f F -> In g G -> bsp f g = false) -> forall t : bsf, length t = N -> (forall g : bsf, In g G -> bsp t g = false) -> in_spanP N F t.
+Proof. exact perp_span. Qed.
+Theorem c10_kcentralizer_all : forall (n : nat) (gens lxs lzs : list bsf), kcosets_premises n gens lxs lzs -> forall t : bsf, length t = (n + n)%nat -> (forall g : bsf, In g gens -> bsp t g = false) -> (forall l : bsf, In l (lxs ++ lzs) -> bsp t l = false) -> in_spanP (n + n) gens t.
+Proof. exact kcentralizer_all. Qed.
+Theorem c10_knormalizer_spanned_all : forall (n : nat) (gens lxs lzs : list bsf), kcosets_premises n gens lxs lzs -> forall t : bsf, length t = (n + n)%nat -> (forall g : bsf, In g gens -> bsp t g = false) -> in_spanP (n + n) (gens ++ lxs ++ lzs) t.
+Proof. exact knormalizer_spanned_all. Qed.
+Theorem c10_kcosets_check_sound : forall (n : nat) (c : Code.code), kcosets_check n c = true -> kcosets_premises n (Code.stabs c) (Code.lxs c) (Code.lzs c).
+Proof. exact kcosets_check_sound. Qed.
+Theorem c10_four_cosets_of_check : forall (n : nat) (gens : list bsf) (lx lz : bsf), kcosets_check n {| Code.stabs := gens; Code.lxs := [lx]; Code.lzs := [lz] |} = true -> four_cosets_conclusion n gens lx lz.
+Proof. exact four_cosets_of_check. Qed.
+Print Assumptions c10_normalizer_counting_all.
+Print Assumptions c10_four_cosets_all.
+Print Assumptions c10_centralizer_all.
+Print Assumptions c10_bsp_nondegenerate.
+Print Assumptions c10_syndrome_onto.
+Print Assumptions c10_destabilizers_exist.
+Print Assumptions c10_exchange_lemma.
+Print Assumptions c10_perp_span.
+Print Assumptions c10_kcentralizer_all.
+Print Assumptions c10_knormalizer_spanned_all.
+Print Assumptions c10_kcosets_check_sound.
+Print Assumptions c10_four_cosets_of_check.
